@@ -78,12 +78,29 @@ fn parse_spec(s: &str) -> Option<Table> {
 }
 
 fn parse_comb(s: &str) -> Option<StandardCombiner> {
-    match s {
-        "funsimavg" => Some(StandardCombiner::FunSimAvg),
-        "funsimmax" => Some(StandardCombiner::FunSimMax),
-        "bma" => Some(StandardCombiner::Bma),
-        _ => None,
+    let own = match s {
+        "funsimavg" => StandardCombiner::FunSimAvg,
+        "funsimmax" => StandardCombiner::FunSimMax,
+        "bma" => StandardCombiner::Bma,
+        _ => return None,
+    };
+    // the crate's own by-name constructor (documented names, any letter case) must agree
+    for cased in [s.to_string(), s.to_uppercase(), {
+        let mut c = s.to_string();
+        if let Some(f) = c.get_mut(0..1) {
+            f.make_ascii_uppercase();
+        }
+        c
+    }] {
+        match StandardCombiner::try_from(cased.as_str()) {
+            Ok(c) if format!("{c:?}") == format!("{own:?}") => {}
+            other => panic!("StandardCombiner::try_from({cased:?}) = {other:?}, documented {own:?}"),
+        }
     }
+    if StandardCombiner::try_from("funsim").is_ok() || StandardCombiner::try_from("").is_ok() {
+        panic!("StandardCombiner::try_from accepts an undocumented name");
+    }
+    Some(own)
 }
 
 fn fs(v: &[f32]) -> String {
